@@ -1,6 +1,7 @@
 // @module crate=glaredb_ext_parquet parent=src/column/encoding/plain.rs
 // @encodes PlainDecoder::<PlainInt32ValueReader>::read_plain, PrimitiveValueReader::read_next_unchecked, Definitions (definition levels -> NULL positions), Validity::set_invalid
 // @bounds 3 rows at output offset 1 of a 4-row INT32 array; definition levels symbolic in {0, 1} (max level 1); 12 symbolic value bytes; unwind 6
+// @stubs alloc::fmt::format, Backtrace::capture, ReaderErrorState::set_error_fn -> flag (real pair checked by c19_reader_error_state)
 //! C10: PLAIN pages with definition levels: a row is NULL exactly where its definition level is
 //! below the maximum; the non-NULL rows receive the stored values in file order (the k-th
 //! non-NULL row gets the k-th value), other rows of the output are untouched, and exactly the
@@ -12,19 +13,21 @@ use glaredb_core::buffer::buffer_manager::DefaultBufferManager;
 use super::*;
 use crate::column::value_reader::primitive::PlainInt32ValueReader;
 use crate::kani_verif_support::*;
+use crate::column::value_reader::kani_verif_support_reader::error_reported;
 
 // @h name=c10_plain_definition_levels props=C10 tier=quick
 #[kani::proof]
 #[kani::unwind(6)]
 #[kani::stub(alloc::fmt::format, crate::kani_verif_support::stub_format)]
 #[kani::stub(std::backtrace::Backtrace::capture, crate::kani_verif_support::stub_backtrace)]
+#[kani::stub(crate::column::value_reader::ReaderErrorState::set_error_fn, crate::column::value_reader::kani_verif_support_reader::stub_set_error_flag)]
 fn c10_plain_definition_levels() {
     let vals: [i32; 3] = kani::any();
     let levels: [i16; 3] = kani::any();
     kani::assume(levels[0] >= 0 && levels[0] <= 1 && levels[1] >= 0 && levels[1] <= 1 && levels[2] >= 0 && levels[2] <= 1);
     let mut out = ok(Array::new(&DefaultBufferManager, DataType::int32(), 4));
     let mut dec = PlainDecoder { buffer: ReadCursor::from_slice(&vals), value_reader: PlainInt32ValueReader::default() };
-    let good = is_ok_forget(dec.read_plain(Definitions::HasDefinitions { levels: &levels, max: 1 }, &mut out, 1, 3));
+    let good = is_ok_forget(dec.read_plain(Definitions::HasDefinitions { levels: &levels, max: 1 }, &mut out, 1, 3)) && !error_reported();
     assert!(good, "well-formed page decodes");
     kani::cover!(levels[0] == 0 && levels[1] == 1);
     let (out_data, out_validity) = out.data_and_validity_mut();
@@ -43,5 +46,25 @@ fn c10_plain_definition_levels() {
     }
     assert!(out_validity.is_valid(0), "rows outside [offset, offset+count) are untouched");
     assert!(dec.buffer.remaining() == 12 - 4 * k, "exactly the defined values are consumed");
+    core::mem::forget(out);
+}
+
+// @h name=c19_plain_truncated_i32 props=C19 tier=quick
+/// A PLAIN INT32 page whose header announces more values than its bytes hold (3 values, 8 or
+/// fewer bytes): the decoder returns an error or rows, and never reads past the page buffer.
+#[kani::proof]
+#[kani::unwind(6)]
+#[kani::stub(alloc::fmt::format, crate::kani_verif_support::stub_format)]
+#[kani::stub(std::backtrace::Backtrace::capture, crate::kani_verif_support::stub_backtrace)]
+#[kani::stub(crate::column::value_reader::ReaderErrorState::set_error_fn, crate::column::value_reader::kani_verif_support_reader::stub_set_error_flag)]
+fn c19_plain_truncated_i32() {
+    let bytes: [u8; 10] = kani::any();
+    let len: usize = kani::any();
+    kani::assume(len <= 10);
+    let mut out = ok(Array::new(&DefaultBufferManager, DataType::int32(), 4));
+    let mut dec = PlainDecoder { buffer: ReadCursor::from_slice(&bytes[..len]), value_reader: PlainInt32ValueReader::default() };
+    let good = is_ok_forget(dec.read_plain(Definitions::NoDefinitions, &mut out, 0, 3)) && !error_reported();
+    kani::cover!(!good);
+    assert!(!good, "12 bytes are needed for 3 INT32 values: a shorter page is an error");
     core::mem::forget(out);
 }
